@@ -129,7 +129,7 @@ Cut(D) ==
 
 (* EveryAckedPresent: a read of all keys after a barrier equals the abstract store *)
 Observe(st) ==
-  /\ store = st
+  /\ Dump(store) = st
   /\ UNCHANGED linVars
 
 (* settle barrier: all replicas up with equal applied index and nothing in flight:       *)
